@@ -148,6 +148,7 @@ fn lock_case(seed: u64, lean: &mut Lean, hist: &mut std::collections::BTreeMap<S
     let mut real_out: Vec<String> = vec![];
     let nops = r.range(3, 10);
     let mut locked_attempts = 0;
+    let mut new_ks = 0u32;
     let mut second_open_while_live = false;
     for _ in 0..nops {
         match r.below(7) {
@@ -171,6 +172,12 @@ fn lock_case(seed: u64, lean: &mut Lean, hist: &mut std::collections::BTreeMap<S
                 let c = class(&res);
                 *hist.entry(format!("open:{c}")).or_insert(0) += 1;
                 if let Ok(d) = res {
+                    // a live instance accumulates files a later recovery would clean up (version files of the meta
+                    // tree, tables compacted away): create a few keyspaces so that a refused open has something to spoil
+                    if r.chance(1, 2) {
+                        for _ in 0..r.range(1, 3) { new_ks += 1; let k = d.keyspace(&format!("n{new_ks}"), KeyspaceCreateOptions::default).unwrap(); let _ = k.insert("k", "v"); }
+                        *hist.entry("keyspaces-created-in-a-live-instance".into()).or_insert(0) += 1;
+                    }
                     if !use_tx { handles.push(Handle::Db(d)); }
                 } else if before != tree_hash(&dir) {
                     fails.push(Failure { kind: "impl-vs-oracle", detail: format!("ops {:?}: open refused with {c} but the directory changed", ops) });
